@@ -42,9 +42,9 @@ def run(tier):
     vf.run_harness(binpath, ["obj", "gen", "--seed", vf.seed(), "--tier", tier,
                              "--n", 2400 if tier == "quick" else 40000], stdout_path=rnd)
     vf.exec_and_validate(chk, binpath, "obj", "TV_Obj", rnd, jvms=12, what="call")
-    if tier == "thorough":
-        plain = vf.build_harness("plain")
-        vf.exec_and_validate(chk, plain, "obj", "TV_Obj", rnd, jvms=12, what="call (plain release build)")
+    # also in a plain release build (no debug assertions, wrapping arithmetic): what a user ships
+    plain = vf.build_harness("plain")
+    vf.exec_and_validate(chk, plain, "obj", "TV_Obj", rnd, jvms=12, what="call (plain release build)")
     chk.cov["distinct_nontrivial"] = chk.cov["traces_validated_against_impl"]
     chk.cov["trusted_base"] = ["TLC + CommunityModules (Json, IOUtils)", "harness/src/obj.rs recorder"]
     chk.assumptions = ["coordinates are judged exactly for literals with <= 6 mantissa digits and a one-digit "
